@@ -235,7 +235,11 @@ import re as _re
 def known_class(arm, case, key):
     data, _ = case
     if key.startswith("non-yaml-error:c:") and "UnicodeDecodeError" in key:
-        text = data if isinstance(data, str) else data.decode("latin-1")
+        if isinstance(data, str):
+            text = data
+        else:
+            text = ref_marks.decode_like_reader(data) or data.decode("latin-1")
+            text += data.replace(b"\x00", b"").decode("latin-1")       # UTF-16 / UTF-32 input without relying on a BOM
         if _re.search(r"%[0-9A-Fa-f]{2}", text):
             return "libyaml-bridge-unicodedecodeerror-on-invalid-utf8-uri-escape"
     return None
